@@ -133,9 +133,13 @@ func (r *Reader) ParseStreamWithOptions(f io.ReadSeeker, o *Options) (*sbom.Docu
 		return nil, fmt.Errorf("getting format parser: %w", err)
 	}
 
-	doc, err := unserializer.Unserialize(
-		f, o.UnserializeOptions, r.Options.GetFormatOptions(unserializer),
-	)
+	// Format options given for this call take precedence over the reader's own
+	formatOptions := o.GetFormatOptions(unserializer)
+	if formatOptions == nil && r.Options != nil {
+		formatOptions = r.Options.GetFormatOptions(unserializer)
+	}
+
+	doc, err := unserializer.Unserialize(f, o.UnserializeOptions, formatOptions)
 	if err != nil {
 		return nil, fmt.Errorf("unserializing: %w", err)
 	}
@@ -171,6 +175,10 @@ func (r *Reader) RetrieveWithOptions(id string, o *Options) (*sbom.Document, err
 
 	if r.Storage == nil {
 		return nil, fmt.Errorf("unable to retrieve document, no storage backend configured")
+	}
+
+	if o == nil {
+		return nil, fmt.Errorf("unable to retrieve document, options cannot be nil")
 	}
 
 	doc, err := r.Storage.Retrieve(id, o.RetrieveOptions)
